@@ -597,7 +597,7 @@ theorem stale_threshold_witness :
                         th := 2 * thQ - 2 ^ 20, probe := 0 }
     getRes (run (flowMod 0) [.loadAll [some f], .loadAll [some { f with th := 3 * thQ - 2 ^ 20 }]]) "f" = [f] ∧
     (run cbMod [.loadAll [some c], .loadAll [some { c with th := 2 * thQ }]]).bound "c" = [c] ∧
-    cbProbe [c] = true ∧ cbProbe [{ c with th := 2 * thQ }] = false := by decide
+    cbProbe [c] = some true ∧ cbProbe [{ c with th := 2 * thQ }] = some false := by decide
 
 /-- the history of the witness: the same flow rule loaded twice, only the ID differs -/
 def staleIdOps : List (Op FlowRule) :=
